@@ -145,7 +145,7 @@ class C12(core.Check):
             if c < 0.45 and self.pool:
                 path, text = self.pool[r.randrange(len(self.pool))]
             elif c < 0.85 or not allow_includes:
-                root = r.choice(["map", "map", "layer", "class", "style", "label", "web", "legend", "scalebar"])
+                root = r.choice(["map", "map", "map", "map", "layer", "layer", "class", "style", "label", "web", "legend", "scalebar"])
                 text = self.gen.document(r, root, comments=0.8 if force_comments else r.choice([0.0, 0.3, 0.8]), nl=r.choice(["\n", "\n", "\r\n"]))
             else:
                 kind = r.choice(["inc_ok", "inc_missing", "inc_deep"])
@@ -205,7 +205,7 @@ class C12(core.Check):
         reuse = {x: k.random() < 0.85 for x in ("parser", "transformer", "printer", "validator")}
         if not any(reuse.values()):
             reuse["parser"] = True
-        weights = {"load": 5, "pprint": 3, "validate": 4, "export": 1}
+        weights = {"load": 5, "pprint": 3, "validate": 4, "export": 1, "pprint_repair": 1}
         for x in list(weights):
             if k.random() < 0.15:
                 weights[x] = 0
@@ -224,6 +224,9 @@ class C12(core.Check):
             elif name == "pprint":
                 ops.append({"op": "pprint", "doc": d, "c": r.random() < 0.5, "p": r.random() < 0.3, "pp": r.randrange(len(PP_CONFIGS)),
                             "poke": r.choice([None, None, None, "web", "metadata", "layers"])})
+            elif name == "pprint_repair":
+                ops.append({"op": "pprint_repair", "doc": d, "c": False, "p": r.random() < 0.3, "pp": r.randrange(len(PP_CONFIGS) - 1),
+                            "where": r.choice(["root", "layer", "class"]), "key": r.choice(["web", "legend", "group", "template", "leader"])})
             elif name == "validate":
                 ops.append({"op": "validate", "doc": d, "p": r.random() < 0.5, "version": same_v if same_v is not None else r.choice(VERSIONS),
                             "add_comments": r.random() < 0.12})
@@ -266,6 +269,12 @@ class C12(core.Check):
                 cls = f.choice(["schema", "schema", "schema", "simfs", "grammar"])
                 fl.append({"op": f.choice(["open", "open", "read"]), "cls": cls, "k": f.choice([1, 1, 2, 2, 3, 4, 5, 8, 13, 21, 34]),
                            "err": f.choice(["EIO", "ENOENT", "EACCES"])})
+        # documents that no generated call uses: the end-of-run purity sweep prints and validates them on the run's
+        # (by then well used) workers - cheap, so there can be many
+        sw = s("sweepdocs")
+        for _ in range(sw.choice([0, 4, 8])):
+            docs[f"d{len(docs)}"] = self.gen.document(sw, sw.choice(["map", "map", "layer", "class", "legend"]),
+                                                      comments=sw.choice([0.0, 0.5]), nl=sw.choice(["\n", "\r\n"]))
         return {"prop": "C12", "world": "W1F" if faults else "W1", "seed": seed, "docs": docs, "files": files, "paths": paths,
                 "locale_encoding": k.choice(["utf-8", "utf-8", "cp1252"]),
                 "reuse": reuse, "ops": ops, "faults": fl}
@@ -404,6 +413,30 @@ class C12(core.Check):
             except Exception:  # noqa: BLE001
                 pass
 
+    def fail_then_repair(self, printer, d, op, second_printer=None):
+        """reading a missing key leaves an empty dict that cannot be printed; the caller notices, deletes it from the
+        SAME dictionary and prints again with the same printer"""
+        root = d[0] if isinstance(d, list) else d
+        target = root
+        try:
+            if op["where"] in ("layer", "class") and root.get("layers"):
+                target = root["layers"][0]
+                if op["where"] == "class" and target.get("classes"):
+                    target = target["classes"][0]
+        except Exception:  # noqa: BLE001
+            target = root
+        had = op["key"] in target
+        if not had:
+            target[op["key"]]  # auto-creates {}
+        first = core.call(lambda: printer.pprint(d))
+        if not had:
+            try:
+                del target[op["key"]]
+            except KeyError:
+                pass
+        second = core.call(lambda: (second_printer or printer).pprint(d))
+        return [[first[0], first[1] if first[0] == "ok" else first[1][1]], [second[0], second[1]]]
+
     def export(self, v, op):
         if op["how"] == "versioned":
             sch = v.get_versioned_schema(op["version"], op["schema"])
@@ -436,7 +469,10 @@ class C12(core.Check):
             if dr[0] != "ok":
                 return ["skip", None]
             d = dr[2]
-            if name == "pprint":
+            if name == "pprint_repair":
+                r = core.call(lambda: self.fail_then_repair(self.PrettyPrinter(**PP_CONFIGS[op["pp"]]), d, op,
+                                                            second_printer=self.PrettyPrinter(**PP_CONFIGS[op["pp"]])))
+            elif name == "pprint":
                 self.poke(d, op.get("poke"))
                 r = core.call(lambda: self.PrettyPrinter(**PP_CONFIGS[op["pp"]]).pprint(d))
             else:
@@ -538,6 +574,18 @@ class C12(core.Check):
                     except Exception as e:
                         got = ("exc", core.exc_repr(e), e)
                 wk = "printer"
+            elif name == "pprint_repair":
+                d = input_dict(op["doc"], False, op["p"])
+                if d is None:
+                    violation = self.viol("input_differs_from_pristine", name, {"op": op, "index": idx}, world=world, op=name)
+                    break
+                with simfs.mounted(fs):
+                    try:
+                        pr = get_printer(op["pp"])
+                        got = core.call(lambda: self.fail_then_repair(pr, d, op))
+                    except Exception as e:
+                        got = ("exc", core.exc_repr(e), e)
+                wk = "printer"
             elif name == "validate":
                 d = input_dict(op["doc"], False, op["p"])
                 if d is None:
@@ -583,6 +631,27 @@ class C12(core.Check):
                     {"op": op, "index": idx, "reused": _short(got[1]), "fresh": _short(exp[1]),
                      "faults_fired": fs.fired_faults}, world=world, op=name)
                 break
+        if not violation:
+            # purity sweep: every document of the run, printed (never with the reordering option) and validated once
+            # more on the run's workers, must come back exactly as it went in - key order included
+            plain = [i for i, c in enumerate(PP_CONFIGS) if not c.get("separate_complex_types")]
+            for n_, did in enumerate(sorted(case["docs"])):
+                d = input_dict(did, n_ % 2 == 1, n_ % 3 == 0)
+                if d is None:
+                    continue
+                before = core.freeze(d)
+                with simfs.mounted(clean):
+                    core.call(lambda: get_printer(plain[n_ % len(plain)]).pprint(d))
+                    after_print = core.freeze(d)
+                    root = (d[0] if isinstance(d, list) else d).get("__type__", "map")
+                    core.call(lambda: get_validator().validate(d, schema_name=root, version=VERSIONS[n_ % len(VERSIONS)]))
+                bump("sweep.docs")
+                steps += 2
+                if after_print != before or core.freeze(d) != before:
+                    violation = self.viol("argument_mutated", "pprint" if after_print != before else "validate",
+                                          {"doc": did, "sweep": True, "before": _short(before), "after": _short(core.freeze(d))},
+                                          world=world, op="sweep")
+                    break
         if not violation:
             # a result belongs to the caller: later calls on the same worker must not change it
             for idx0, name0, raw0, frozen0 in handed_out:
